@@ -1,5 +1,25 @@
 import Bmc.Proofs.C06
 import Bmc.Proofs.ApiWrappers
+import Bmc.Proofs.GenEnc.TranslatedOk
+import Bmc.Proofs.GenEnc.GetSensorReadingReq
+import Bmc.Proofs.GenEnc.GetDCMICapabilitiesInfoReq
+import Bmc.Proofs.GenEnc.GetDCMISensorInfoReq
+import Bmc.Proofs.GenEnc.ChassisControlReq
+import Bmc.Proofs.GenEnc.CloseSessionReq
+import Bmc.Proofs.GenEnc.GetChannelAuthenticationCapabilitiesReq
+import Bmc.Proofs.GenEnc.GetChannelCipherSuitesReq
+import Bmc.Proofs.GenEnc.GetSDRReq
+import Bmc.Proofs.GenEnc.GetSessionInfoReq
+import Bmc.Proofs.GenEnc.SetSessionPrivilegeLevelReq
+import Bmc.Proofs.GenEnc.OpenSessionReq
+import Bmc.Proofs.GenEnc.RAKPMessage3
+import Bmc.Proofs.GenEnc.RAKPMessage1
+import Bmc.Proofs.GenEnc.V1Session
+import Bmc.Proofs.GenEnc.Message
+import Bmc.Proofs.GenEnc.GetPowerReadingReq
+import Bmc.Proofs.GenEnc.V2Session
+import Bmc.Proofs.GenEnc.AES128CBC
+import Bmc.Proofs.EndToEnd.RequestsC06
 #print axioms Bmc.Proofs.C06.packet_parses
 #print axioms Bmc.Proofs.C06.payload_packet_parses
 #print axioms Bmc.Proofs.C06.operation_table
@@ -32,3 +52,45 @@ import Bmc.Proofs.ApiWrappers
 #print axioms Bmc.Proofs.ApiWrappers.api_other_senders
 #print axioms Bmc.Proofs.ApiWrappers.api_cmd_constructors
 #print axioms Bmc.Proofs.ApiWrappers.validate_response
+#print axioms Bmc.Proofs.GenEnc.translated_ok
+#print axioms Bmc.Proofs.GenEnc.gaveUp_empty
+#print axioms Bmc.Proofs.GenEnc.uninterpreted_ok
+#print axioms Bmc.Proofs.GenEnc.GetSensorReadingReq_enc_eq
+#print axioms Bmc.Proofs.GenEnc.GetDCMICapabilitiesInfoReq_enc_eq
+#print axioms Bmc.Proofs.GenEnc.GetDCMISensorInfoReq_enc_eq
+#print axioms Bmc.Proofs.GenEnc.ChassisControlReq_enc_eq
+#print axioms Bmc.Proofs.GenEnc.CloseSessionReq_enc_eq
+#print axioms Bmc.Proofs.GenEnc.GetChannelAuthenticationCapabilitiesReq_enc_eq
+#print axioms Bmc.Proofs.GenEnc.GetChannelCipherSuitesReq_enc_eq
+#print axioms Bmc.Proofs.GenEnc.GetSDRReq_enc_eq
+#print axioms Bmc.Proofs.GenEnc.GetSessionInfoReq_enc_eq
+#print axioms Bmc.Proofs.GenEnc.SetSessionPrivilegeLevelReq_enc_eq
+#print axioms Bmc.Proofs.GenEnc.OpenSessionReq_enc_eq_inner
+#print axioms Bmc.Proofs.GenEnc.OpenSessionReq_enc_eq
+#print axioms Bmc.Proofs.GenEnc.RAKPMessage3_enc_eq
+#print axioms Bmc.Proofs.GenEnc.RAKPMessage1_enc_eq
+#print axioms Bmc.Proofs.GenEnc.RAKPMessage1_enc_eq_setup
+#print axioms Bmc.Proofs.GenEnc.V1Session_enc_eq
+#print axioms Bmc.Proofs.GenEnc.Message_enc_eq
+#print axioms Bmc.Proofs.GenEnc.GetPowerReadingReq_enc_eq_any
+#print axioms Bmc.Proofs.GenEnc.GetPowerReadingReq_enc_eq
+#print axioms Bmc.Proofs.GenEnc.V2Session_enc_eq
+#print axioms Bmc.Proofs.GenEnc.AES128CBC_enc_param
+#print axioms Bmc.Proofs.GenEnc.AES128CBC_enc_eq
+#print axioms Bmc.Proofs.GenEnc.AES128CBC_enc_randErr
+#print axioms Bmc.Proofs.EndToEnd.generated_authcaps_request
+#print axioms Bmc.Proofs.EndToEnd.generated_ciphersuites_request
+#print axioms Bmc.Proofs.EndToEnd.generated_sessioninfo_request
+#print axioms Bmc.Proofs.EndToEnd.generated_setpriv_request
+#print axioms Bmc.Proofs.EndToEnd.generated_setpriv_callback
+#print axioms Bmc.Proofs.EndToEnd.generated_closesession_request
+#print axioms Bmc.Proofs.EndToEnd.generated_chassiscontrol_request
+#print axioms Bmc.Proofs.EndToEnd.generated_getsdr_request
+#print axioms Bmc.Proofs.EndToEnd.generated_sensorreading_request
+#print axioms Bmc.Proofs.EndToEnd.generated_opensession_request
+#print axioms Bmc.Proofs.EndToEnd.generated_rakp1_request
+#print axioms Bmc.Proofs.EndToEnd.generated_rakp3_request
+#print axioms Bmc.Proofs.EndToEnd.generated_dcmicaps_request
+#print axioms Bmc.Proofs.EndToEnd.generated_dcmisensorinfo_request
+#print axioms Bmc.Proofs.EndToEnd.generated_powerreading_enhanced_request
+#print axioms Bmc.Proofs.EndToEnd.generated_powerreading_normal_request
